@@ -42,6 +42,9 @@ CONFIGS = [  # (shape, sy, dt, grid step)
     ('convex', 2.0, 3600, 0.75),
     ('concave', 0.5, 1800, 1.0),
 ]
+# one-second and one-day steps: intensities of thousands of mm/h and of
+# hundredths of a mm/h for the same planted curves
+EXTREME_STEPS = [('uniform', 2.0, 1, 1.0), ('convex', 0.5, 86400, 0.5)]
 A0 = 16
 # the light step after each storm sits EXACTLY at both thresholds (rain =
 # storm threshold, increment = jump threshold x step); dyadic lattice and
@@ -103,6 +106,9 @@ def spaces(tier):
     out = [sequence_space(4 if tier == 'quick' else 5)]
     for config in AT_THRESHOLD:
         out.append(at_threshold_space(2 if tier == 'quick' else 3, config))
+    for config in EXTREME_STEPS:
+        out.append(word_space(1, config, True))
+        out.append(word_space(2, config, False))
     if tier == 'quick':
         for config in CONFIGS:
             out.append(word_space(1, config, True))
